@@ -89,6 +89,16 @@ Definition add_leaf (sha : bytes -> bytes) (l : list (bytes * (bool * bool))) (p
 Definition dedup_entry (e : pending) (earlier_issuers : list bytes) : pending :=
   mkPending (p_cert e) (p_pre e) (p_ikh e) earlier_issuers (p_precert e).
 
+(* computeCacheHash: the key of all three lookups. SHA-256 of the RFC 6962 entry prefix: entry
+   type (uint16), for precert entries the 32-byte issuer key hash, then the certificate / the
+   defanged TBSCertificate with a uint24 length. Two precertificates with the same TBSCertificate
+   but different issuer keys are therefore DIFFERENT entries (dedup_preimage_ikh). *)
+Definition dedup_preimage (cert : bytes) (pre : bool) (ikh : bytes) : bytes :=
+  (if pre then be 2 1 ++ ikh else be 2 0) ++ be 3 (blen cert) ++ cert.
+
+Definition dedup_key (sha : bytes -> bytes) (cert : bytes) (pre : bool) (ikh : bytes) : bytes :=
+  sha (dedup_preimage cert pre ikh).
+
 (* what the rest of the request sees: after an issuer error addLeafToPool returns, WITHOUT
    touching the pool, a wait function that fails at once ("failed to upload issuer"), which the
    status mapping of http.go treats as any other error (WOther: 500) *)
